@@ -224,12 +224,16 @@ def run(ctx, rep):
             rep.check(ok2, 'R7', '%s/%s' % (m, name), es[0].where() if es else w(host), '%s read and its absence propagated before %s' % (name, m),
                       '%s is not read (or its error is dropped) on every path before Buildpack::%s' % (name, m))
         ctxv = strip(sl.operand(host, c.args[1]))
-        fields = dict(ctxv[3]) if ctxv[0] == 'agg' else {}
+        # normal form: private helpers between the context literal and the reads are looked through
+        KEEP7 = ('libcnb::runtime::read_buildpack_descriptor', 'libcnb_common::toml_file::read_toml_file')
+        fields = {k: sl.inline_deep(v, keep=KEEP7) for k, v in ctxv[3]} if ctxv[0] == 'agg' else {}
         need = {'buildpack_descriptor': 'libcnb::runtime::read_buildpack_descriptor', 'platform': 'libcnb::platform::Platform::from_path'}
         if m == 'build':
             need['buildpack_plan'] = 'libcnb_common::toml_file::read_toml_file'
         for fld, callee in need.items():
             fv = strip(fields.get(fld, ('unknown',)))
+            while fv[0] == 'call' and fv[1] in ('std::result::Result::<T, E>::map_err', 'std::result::Result::<T, E>::inspect_err') and fv[2]:
+                fv = strip(fv[2][0])
             ok3 = fv[0] == 'call' and fv[1] == callee
             rep.check(ok3 and fields.get(fld, ('x',))[0] == 'unwrap', 'R7', '%s/input/%s' % (m, fld), c.where(), '%s <- %s(..)? (failure propagated)' % (fld, callee.split('::')[-1]),
                       'context field %s is not the ?-propagated result of %s: %s' % (fld, callee, vstr(fields.get(fld, ('unknown',)))[:100]))
